@@ -9,8 +9,11 @@
 //! comparison with TLC-generated expectations or by TLC trace validation.
 
 mod util;
+#[macro_use]
+mod types;
 mod bitmap;
 mod volatile;
+mod guest;
 
 use std::io::{BufRead, BufWriter, Write};
 
@@ -28,6 +31,7 @@ fn main() {
     let mut exec: Box<dyn util::Exec> = match module {
         "bitmap" => Box::new(bitmap::BitmapExec::default()),
         "volatile" => Box::new(volatile::VolExec::default()),
+        "guest" => Box::new(guest::GuestExec::default()),
         _ => {
             eprintln!("unknown module {module}");
             std::process::exit(2);
